@@ -70,6 +70,9 @@ func genImportFile(t *tape.Tape, cls string, pkg string) ImportFile {
 	}
 	isIface := t.Bool(1, 6)
 	ni := t.Int(0, 6)
+	if t.Bool(1, 8) {
+		ni = t.Int(7, 11) // many imports: the shifting line arithmetic is exercised harder
+	}
 	type imp struct {
 		q, simple, role string
 		wildcard, stat  bool
@@ -136,6 +139,14 @@ func genImportFile(t *tape.Tape, cls string, pkg string) ImportFile {
 	perm := t.Perm(len(imps))
 	var lines []string
 	add := func(s string) { lines = append(lines, s) }
+	if t.Bool(1, 4) {
+		// a licence header: shifts every line number
+		add("/*")
+		for k := 0; k < t.Int(1, 4); k++ {
+			add(" * licence line")
+		}
+		add(" */")
+	}
 	add("package " + pkg + ";")
 	if t.Bool(1, 2) {
 		add("")
